@@ -44,7 +44,7 @@ var badKeyPool = []string{"\xff", "\xfe", "a\xff", "a\xfe", "ok", "�", "a�",
 var strPool = []string{"ok", "", "\xff", "a\x80b", "é", "\xc0\x80", "\xf4\x90\x80\x80", "<>", "\xe2\x82"}
 
 func genMarshal(t *rapid.T) MarshalCase {
-	c := MarshalCase{Family: rapid.IntRange(0, 6).Draw(t, "family"), Var: rapid.IntRange(0, 2).Draw(t, "variant"), Nested: rapid.IntRange(0, 3).Draw(t, "nested"),
+	c := MarshalCase{Family: rapid.IntRange(0, 7).Draw(t, "family"), Var: rapid.IntRange(0, 2).Draw(t, "variant"), Nested: rapid.IntRange(0, 3).Draw(t, "nested"),
 		UTF8: rapid.Bool().Draw(t, "utf8"), Dup: rapid.Bool().Draw(t, "dup"), Determ: rapid.Bool().Draw(t, "determ")}
 	n := rapid.IntRange(1, 4).Draw(t, "n")
 	for i := 0; i < n; i++ {
@@ -60,6 +60,8 @@ func genMarshal(t *rapid.T) MarshalCase {
 			c.Keys = append(c.Keys, []byte(rapid.SampledFrom(strPool).Draw(t, "sval")))
 		case 6:
 			c.Keys = append(c.Keys, []byte(rapid.SampledFrom([]string{"0", "1", "2", "3", "4", "5"}).Draw(t, "fnkey")))
+		case 7:
+			c.Keys = append(c.Keys, []byte(rapid.SampledFrom(badKeyPool).Draw(t, "fbkey")))
 		default:
 			c.Keys = append(c.Keys, []byte(rapid.SampledFrom(badKeyPool).Draw(t, "bkey")))
 		}
@@ -221,6 +223,14 @@ func (c *MarshalCase) value() (v any, names []string, bad bool, members int) {
 			}
 		}
 		v = h
+	case 7:
+		// the raw object of family 5 as the embedded raw fallback of a struct
+		c5 := *c
+		c5.Family, c5.Nested = 5, 0
+		rv, n5, b5, _ := c5.value()
+		names = append([]string{"A", "B"}, n5...)
+		bad = b5
+		v, members = withFallbackRaw{A: 1, B: "b", X: rv.(jsontext.Value)}, len(names)
 	case 5:
 		// a raw JSON object whose names are written with raw (possibly ill-formed) bytes
 		var sb []byte
